@@ -148,7 +148,7 @@ ListOutcome(m, start, comps) ==
 \* new node; the alias key (observed, constrained by C16) is added by the caller
 NewNode(par, name, kind, stamp) ==
    [par |-> par, name |-> name, keys |-> {Key(name)}, kind |-> kind, data |-> <<>>,
-    ct |-> stamp.ct, mt |-> stamp.mt, ad |-> stamp.ad]
+    ct |-> stamp.ct, mt |-> stamp.mt, mtAlt |-> stamp.mt, ad |-> stamp.ad]
 
 ApplyCreate(m, fx, stamp) ==
    LET id == m.next IN
